@@ -1,4 +1,5 @@
 import TakVerif.Impl.PTN
+import TakVerif.Impl.PTNSafe
 import TakVerif.Proofs.PTNTotal
 
 /-! Rendering a PTN value and parsing the text again: token-level round trip. -/
@@ -287,22 +288,6 @@ theorem resultList_shape : ∀ t ∈ resultList, resultShape t = true := by deci
 theorem matchResult_shape (t : Bytes) (h : matchResult t = true) : resultShape t = true :=
   resultList_shape t (matchResult_mem t h)
 
-/-- a move the text form can carry: `FormatMove` yields one clean token that `ParseMove` reads back -/
-def moveSafe (env : Env) (m : Move) : Bool :=
-  let s := env.formatMove m
-  (match s.head? with | some c => c != 123 && c != 91 | none => false) &&
-  (match s.getLast? with | some l => l != 46 && !isModifier l | none => false) &&
-  s.all (fun b => !isSpace b) &&
-  !matchResult s &&
-  (match env.parseMove s with | .ok m' => m' == m | .error _ => false)
-
-/-- the token an op is rendered as -/
-def tokOf (env : Env) : Op → Bytes
-  | .moveNumber _ n => itoa n ++ [46]
-  | .move _ m mods => env.formatMove m ++ mods
-  | .comment _ c => 123 :: c ++ [125]
-  | .result _ r => r
-
 /-- the op as `ParsePTN` returns it: with the token as source text -/
 def withSrc (env : Env) : Op → Op
   | .moveNumber s n => .moveNumber (tokOf env (.moveNumber s n)) n
@@ -312,14 +297,6 @@ def withSrc (env : Env) : Op → Op
 
 theorem clearSrc_withSrc (env : Env) (op : Op) : (withSrc env op).clearSrc = op.clearSrc := by
   cases op <;> rfl
-
-/-- an op inside the fragment on which render/parse is lossless -/
-def opSafe (env : Env) : Op → Bool
-  | .moveNumber _ n => decide (-(2 ^ 63 : Int) ≤ n) && decide (n < 2 ^ 63)
-  | .move _ m mods => moveSafe env m && mods.all isModifier &&
-      decide ((env.formatMove m).length + mods.length + 1 < maxScanTokenSize)
-  | .comment _ c => c.all (· != 125) && decide (c.length + 3 ≤ maxScanTokenSize)
-  | .result _ r => matchResult r
 
 theorem getLast?_append_singleton {α} (l : List α) (a : α) : (l ++ [a]).getLast? = some a := by
   simp
@@ -572,10 +549,13 @@ theorem itoa_no_space (n : Int) : ∀ b ∈ itoa n, isSpace b = false := by
 
 /-- a token the scanner cuts at the next white-space byte -/
 def OrdTok (tok : Bytes) : Prop :=
-  tok ≠ [] ∧ (∀ b ∈ tok, isSpace b = false) ∧ tok.head? ≠ some 123 ∧ tok.length + 1 < maxScanTokenSize
+  tok ≠ [] ∧ (∀ b ∈ tok, isSpace b = false) ∧ tok.head? ≠ some 123
+
+/-- the clauses of `opSafe` without the length clause -/
+def opClean (env : Env) (op : Op) : Bool := opShape op && opMove env op
 
 theorem ordTok_moveNumber (n : Int) (hlo : -(2 ^ 63 : Int) ≤ n) (hhi : n < 2 ^ 63) : OrdTok (itoa n ++ [46]) := by
-  refine ⟨by simp, ?_, ?_, ?_⟩
+  refine ⟨by simp, ?_, ?_⟩
   · intro b hb
     simp only [List.mem_append, List.mem_singleton] at hb
     rcases hb with hb | rfl
@@ -594,15 +574,12 @@ theorem ordTok_moveNumber (n : Int) (hlo : -(2 ^ 63 : Int) ≤ n) (hhi : n < 2 ^
         simp only [List.cons_append, List.head?_cons, ne_eq, Option.some.injEq]
         intro h; subst h
         have := h2.1; revert this; decide
-  · have := itoa_length n hlo hhi
-    simp only [List.length_append, List.length_cons, List.length_nil, maxScanTokenSize]
-    omega
 
 theorem ordTok_result (r : Bytes) (h : matchResult r = true) : OrdTok r := by
   have hs := matchResult_shape r h
   simp only [resultShape, Bool.and_eq_true, decide_eq_true_eq] at hs
   obtain ⟨⟨⟨h1, _⟩, h3⟩, h4⟩ := hs
-  refine ⟨?_, ?_, ?_, ?_⟩
+  refine ⟨?_, ?_, ?_⟩
   · intro h0; subst h0; simp at h1
   · intro b hb; simpa using (List.all_eq_true.mp h3) b hb
   · cases r with
@@ -610,15 +587,13 @@ theorem ordTok_result (r : Bytes) (h : matchResult r = true) : OrdTok r := by
     | cons c cs =>
       simp only [List.head?_cons, Bool.and_eq_true, bne_iff_ne, ne_eq] at h1
       simpa using h1.1
-  · simp only [maxScanTokenSize]; omega
 
 theorem ordTok_move (env : Env) (m : Move) (mods : Bytes) (hm : moveSafe env m = true)
-    (hmods : mods.all isModifier = true)
-    (hlen : (env.formatMove m).length + mods.length + 1 < maxScanTokenSize) :
+    (hmods : mods.all isModifier = true) :
     OrdTok (env.formatMove m ++ mods) := by
   simp only [moveSafe, Bool.and_eq_true] at hm
   obtain ⟨⟨⟨⟨h1, _⟩, h3⟩, _⟩, _⟩ := hm
-  refine ⟨?_, ?_, ?_, ?_⟩
+  refine ⟨?_, ?_, ?_⟩
   · intro h0
     have : env.formatMove m = [] := (List.append_eq_nil_iff.mp h0).1
     rw [this] at h1; simp at h1
@@ -635,7 +610,6 @@ theorem ordTok_move (env : Env) (m : Move) (mods : Bytes) (hm : moveSafe env m =
       rw [hs] at h1
       simp only [List.head?_cons, Bool.and_eq_true, bne_iff_ne, ne_eq] at h1
       simpa using h1.1
-  · simp only [List.length_append]; exact hlen
 
 /-- what follows the tag section in `Render`'s output, from a given op on -/
 def tailBytes (env : Env) (ops : List Op) : Bytes := ops.flatMap (renderOp env) ++ [10]
@@ -650,156 +624,7 @@ theorem tailBytes_head (env : Env) (ops : List Op) : ∃ t tl, tailBytes env ops
     | comment s c => exact ⟨32, [123] ++ c ++ [125] ++ tailBytes env ops, by simp [tailBytes, renderOp], by decide⟩
     | result s r => exact ⟨10, r ++ [10] ++ tailBytes env ops, by simp [tailBytes, renderOp], by decide⟩
 
-/-- `readMoves` on the rendering of safe ops yields those ops (with their tokens as source text), whether
-or not the separator in front of the first token has already been consumed -/
-theorem readMoves_tailBytes (env : Env) (ops : List Op) (hsafe : ∀ op ∈ ops, opSafe env op = true) :
-    ∀ fuel,
-      ((tailBytes env ops).length < fuel →
-        readMoves env fuel (tailBytes env ops) = .ok (ops.map (withSrc env))) ∧
-      (((tailBytes env ops).drop 1).length < fuel →
-        readMoves env fuel ((tailBytes env ops).drop 1) = .ok (ops.map (withSrc env))) := by
-  induction ops with
-  | nil =>
-    intro fuel
-    constructor
-    · intro hf
-      have hf' : 1 < fuel := by simpa [tailBytes] using hf
-      obtain ⟨f, rfl⟩ : ∃ f, fuel = f + 2 := ⟨fuel - 2, by omega⟩
-      show readMoves env (f + 2) [10] = _
-      have h1 : scanStep [10] = .skip [] := by decide
-      have h2 : scanStep [] = .eof := by decide
-      simp only [readMoves, h1, h2, List.map_nil]
-    · intro hf
-      obtain ⟨f, rfl⟩ : ∃ f, fuel = f + 1 := ⟨fuel - 1, by omega⟩
-      show readMoves env (f + 1) [] = _
-      have h2 : scanStep [] = .eof := by decide
-      simp only [readMoves, h2, List.map_nil]
-  | cons op ops ih =>
-    intro fuel
-    have hsafe' : ∀ o ∈ ops, opSafe env o = true := fun o ho => hsafe o (by simp [ho])
-    have hop := hsafe op (by simp)
-    obtain ⟨t, tl, htl, ht⟩ := tailBytes_head env ops
-    have htl' : tl = (tailBytes env ops).drop 1 := by rw [htl]; rfl
-    cases fuel with
-    | zero => exact ⟨fun h => by omega, fun h => by omega⟩
-    | succ f =>
-    have ih1 := (ih hsafe' f).1
-    have ih2 := (ih hsafe' f).2
-    -- an ordinary token whose terminator is the first byte of the rest of the rendering
-    have ord : ∀ (sep : UInt8) (tok : Bytes) (o' : Op), isSpace sep = true → OrdTok tok →
-        classifyTok env tok = .ok o' → tailBytes env (op :: ops) = sep :: tok ++ tailBytes env ops →
-        ((tailBytes env (op :: ops)).length < f + 1 →
-          readMoves env (f + 1) (tailBytes env (op :: ops)) = .ok (o' :: ops.map (withSrc env))) ∧
-        (((tailBytes env (op :: ops)).drop 1).length < f + 1 →
-          readMoves env (f + 1) ((tailBytes env (op :: ops)).drop 1) = .ok (o' :: ops.map (withSrc env))) := by
-      intro sep tok o' hsep ⟨hne, hns, hhd, hlen⟩ hcl heq
-      have hpos : 0 < tok.length := List.length_pos_iff.mpr hne
-      constructor
-      · intro hf
-        have hrec := ih2 (by
-          rw [heq] at hf
-          simp only [List.length_cons, List.length_append, List.length_drop] at hf ⊢
-          omega)
-        rw [heq, htl]
-        have hs := scanStep_ordinary [sep] tok tl t (by simpa using hsep) hne hns hhd ht
-          (by simp only [List.length_cons, List.length_nil]; omega)
-        have : sep :: tok ++ t :: tl = [sep] ++ tok ++ t :: tl := by simp
-        rw [this]
-        simp only [readMoves, hs, hcl]
-        rw [htl', hrec]
-      · intro hf
-        have hrec := ih2 (by
-          rw [heq] at hf
-          have hd : (sep :: tok ++ tailBytes env ops).drop 1 = tok ++ tailBytes env ops := rfl
-          rw [hd] at hf
-          simp only [List.length_append, List.length_drop] at hf ⊢
-          omega)
-        rw [heq, htl]
-        have hs := scanStep_ordinary [] tok tl t (by simp) hne hns hhd ht (by simp only [List.length_nil]; omega)
-        have : (sep :: tok ++ t :: tl).drop 1 = [] ++ tok ++ t :: tl := by simp
-        rw [this]
-        simp only [readMoves, hs, hcl]
-        rw [htl', hrec]
-    cases op with
-    | moveNumber s n =>
-      simp only [opSafe, Bool.and_eq_true, decide_eq_true_eq] at hop
-      have := ord 10 (itoa n ++ [46]) _ (by decide) (ordTok_moveNumber n hop.1 hop.2)
-        (classify_moveNumber env n hop.1 hop.2) (by simp [tailBytes, renderOp])
-      simpa [withSrc, tokOf] using this
-    | move s m md =>
-      simp only [opSafe, Bool.and_eq_true, decide_eq_true_eq] at hop
-      have := ord 32 (env.formatMove m ++ md) _ (by decide) (ordTok_move env m md hop.1.1 hop.1.2 hop.2)
-        (classify_move env m md hop.1.1 hop.1.2) (by simp [tailBytes, renderOp])
-      simpa [withSrc, tokOf] using this
-    | result s r =>
-      simp only [opSafe] at hop
-      -- the token is terminated by the result's own trailing newline
-      obtain ⟨hne, hns, hhd, hlen⟩ := ordTok_result r hop
-      have hcl := classify_result env r hop
-      have heq : tailBytes env (.result s r :: ops) = 10 :: r ++ 10 :: tailBytes env ops := by
-        simp [tailBytes, renderOp]
-      constructor
-      · intro hf
-        have hrec := ih1 (by
-          rw [heq] at hf
-          simp only [List.length_cons, List.length_append] at hf
-          omega)
-        rw [heq]
-        have hs := scanStep_ordinary [10] r (tailBytes env ops) 10 (by decide) hne hns hhd (by decide)
-          (by simp only [List.length_cons, List.length_nil]; omega)
-        have : 10 :: r ++ 10 :: tailBytes env ops = [10] ++ r ++ 10 :: tailBytes env ops := by simp
-        rw [this]
-        simp only [readMoves, hs, hcl, hrec, List.map_cons, withSrc, tokOf]
-      · intro hf
-        have hrec := ih1 (by
-          rw [heq] at hf
-          have hd : (10 :: r ++ 10 :: tailBytes env ops).drop 1 = r ++ 10 :: tailBytes env ops := rfl
-          rw [hd] at hf
-          simp only [List.length_cons, List.length_append] at hf
-          omega)
-        rw [heq]
-        have hs := scanStep_ordinary [] r (tailBytes env ops) 10 (by simp) hne hns hhd (by decide)
-          (by simp only [List.length_nil]; omega)
-        have : (10 :: r ++ 10 :: tailBytes env ops).drop 1 = [] ++ r ++ 10 :: tailBytes env ops := by simp
-        rw [this]
-        simp only [readMoves, hs, hcl, hrec, List.map_cons, withSrc, tokOf]
-    | comment s c =>
-      simp only [opSafe, Bool.and_eq_true, decide_eq_true_eq] at hop
-      have hc : ∀ b ∈ c, (b != 125) = true := fun b hb => (List.all_eq_true.mp hop.1) b hb
-      have hcl := classify_comment env c
-      have heq : tailBytes env (.comment s c :: ops) = 32 :: (123 :: c ++ [125]) ++ tailBytes env ops := by
-        simp [tailBytes, renderOp]
-      constructor
-      · intro hf
-        have hrec := ih1 (by
-          rw [heq] at hf
-          simp only [List.length_cons, List.length_append] at hf
-          omega)
-        rw [heq]
-        have hs := scanStep_comment [32] c (tailBytes env ops) (by decide) hc
-          (by simp only [List.length_cons, List.length_nil]; omega)
-        have : 32 :: (123 :: c ++ [125]) ++ tailBytes env ops = [32] ++ (123 :: c ++ [125]) ++ tailBytes env ops := by simp
-        rw [this]
-        simp only [readMoves, hs, hcl, hrec, List.map_cons, withSrc, tokOf]
-      · intro hf
-        have hrec := ih1 (by
-          rw [heq] at hf
-          have hd : (32 :: (123 :: c ++ [125]) ++ tailBytes env ops).drop 1 = (123 :: c ++ [125]) ++ tailBytes env ops := rfl
-          rw [hd] at hf
-          simp only [List.length_cons, List.length_append] at hf
-          omega)
-        rw [heq]
-        have hs := scanStep_comment [] c (tailBytes env ops) (by simp) hc
-          (by simp only [List.length_nil]; omega)
-        have : (32 :: (123 :: c ++ [125]) ++ tailBytes env ops).drop 1 = [] ++ (123 :: c ++ [125]) ++ tailBytes env ops := by simp
-        rw [this]
-        simp only [readMoves, hs, hcl, hrec, List.map_cons, withSrc, tokOf]
-
 /-! ### `readEvents` on rendered tags -/
-
-/-- a tag the text form can carry: no space or `]` in the name, no `"` or `]` in the value -/
-def tagSafe (t : Tag) : Bool :=
-  t.name.all (fun b => b != 32 && b != 93) && t.value.all (fun b => b != 34 && b != 93)
 
 theorem readEvents_skip (fuel : Nat) (b : UInt8) (x : Bytes) (hb : isSpace b = true) :
     readEvents fuel (b :: x) = readEvents fuel x := by
@@ -915,9 +740,6 @@ theorem readEvents_tags (tags : List Tag) (hsafe : ∀ t ∈ tags, tagSafe t = t
 
 /-! ### the round trip -/
 
-/-- the fragment of PTN values on which `Render` followed by `ParsePTN` is lossless (decidable) -/
-def renderSafe (env : Env) (f : File) : Bool := f.tags.all tagSafe && f.ops.all (opSafe env)
-
 theorem render_eq (env : Env) (f : File) :
     render env f = f.tags.flatMap renderTag ++ (10 :: tailBytes env f.ops) := by
   simp [render, tailBytes]
@@ -930,12 +752,12 @@ theorem renderOp_shape (env : Env) (op : Op) :
   | comment s c => exact ⟨32, [], by decide, by simp [renderOp, tokOf]⟩
   | result s r => exact ⟨10, [10], by decide, by simp [renderOp, tokOf]⟩
 
-theorem tok_head (env : Env) (op : Op) (h : opSafe env op = true) :
+theorem tok_head (env : Env) (op : Op) (h : opClean env op = true) :
     ∃ c cs, tokOf env op = c :: cs ∧ isSpace c = false ∧ c ≠ 91 := by
   cases op with
   | moveNumber s n =>
-    simp only [opSafe, Bool.and_eq_true, decide_eq_true_eq] at h
-    obtain ⟨hne, hns, _, _⟩ := ordTok_moveNumber n h.1 h.2
+    simp only [opClean, opShape, opMove, Bool.and_eq_true, decide_eq_true_eq, and_true] at h
+    obtain ⟨hne, hns, _⟩ := ordTok_moveNumber n h.1 h.2
     simp only [tokOf]
     cases hd : itoa n ++ [46] with
     | nil => exact absurd hd hne
@@ -957,8 +779,8 @@ theorem tok_head (env : Env) (op : Op) (h : opSafe env op = true) :
           revert this; decide
       · revert hmem; decide
   | move s m md =>
-    simp only [opSafe, Bool.and_eq_true, decide_eq_true_eq] at h
-    have hm := h.1.1
+    simp only [opClean, opShape, opMove, Bool.and_eq_true] at h
+    have hm := h.2
     simp only [moveSafe, Bool.and_eq_true] at hm
     obtain ⟨⟨⟨⟨h1, _⟩, h3⟩, _⟩, _⟩ := hm
     simp only [tokOf]
@@ -971,7 +793,7 @@ theorem tok_head (env : Env) (op : Op) (h : opSafe env op = true) :
       exact ⟨c, cs ++ md, rfl, h3.1, h1.2⟩
   | comment s c => exact ⟨123, c ++ [125], rfl, by decide, by decide⟩
   | result s r =>
-    simp only [opSafe] at h
+    simp only [opClean, opShape, opMove, Bool.and_true] at h
     have hs := matchResult_shape r h
     simp only [resultShape, Bool.and_eq_true] at hs
     obtain ⟨⟨⟨h1, _⟩, h3⟩, _⟩ := hs
@@ -985,7 +807,7 @@ theorem tok_head (env : Env) (op : Op) (h : opSafe env op = true) :
 
 /-- after the tag section: the reader skips the blank line and the first separator, and what follows does
 not look like a tag -/
-theorem after_tags (env : Env) (ops : List Op) (hsafe : ∀ op ∈ ops, opSafe env op = true) :
+theorem after_tags (env : Env) (ops : List Op) (hsafe : ∀ op ∈ ops, opClean env op = true) :
     (10 :: tailBytes env ops).dropWhile isSpace = (tailBytes env ops).drop 1 ∧
     ∀ c more, (tailBytes env ops).drop 1 = c :: more → c ≠ 91 := by
   cases ops with
@@ -1022,42 +844,4 @@ theorem stripBOM_render (env : Env) (f : File) : stripBOM (render env f) = rende
     simp only [List.flatMap_cons, renderTag]
     rfl
 
-/-- `ParsePTN (Render p)` for a `renderSafe` value: the same tags, and the same ops carrying their
-rendered token as source text -/
-theorem parse_render (env : Env) (f : File) (hs : renderSafe env f = true) :
-    parsePTN env (render env f) = .ok ⟨f.tags, f.ops.map (withSrc env)⟩ := by
-  simp only [renderSafe, Bool.and_eq_true] at hs
-  have htags : ∀ t ∈ f.tags, tagSafe t = true := fun t ht => (List.all_eq_true.mp hs.1) t ht
-  have hops : ∀ op ∈ f.ops, opSafe env op = true := fun op ho => (List.all_eq_true.mp hs.2) op ho
-  obtain ⟨hdw, hnot⟩ := after_tags env f.ops hops
-  unfold parsePTN
-  have hne : (render env f).isEmpty = false := by
-    rw [render_eq]
-    cases f.tags.flatMap renderTag <;> rfl
-  rw [hne]
-  simp only [Bool.false_eq_true, if_false]
-  rw [stripBOM_render]
-  have hev := readEvents_tags f.tags htags (10 :: tailBytes env f.ops) ((render env f).length + 1)
-    (by
-      rw [render_eq, List.length_append]
-      have := flatMap_renderTag_length f.tags
-      omega)
-    (by rw [hdw]; exact hnot)
-  rw [← render_eq] at hev
-  rw [hev, hdw]
-  dsimp only
-  rw [(readMoves_tailBytes env f.ops hops _).2 (by omega)]
-
-/-- the same with a byte-order mark in front -/
-theorem parse_bom_render (env : Env) (f : File) (hs : renderSafe env f = true) :
-    parsePTN env (0xEF :: 0xBB :: 0xBF :: render env f) = .ok ⟨f.tags, f.ops.map (withSrc env)⟩ := by
-  have h := parse_render env f hs
-  unfold parsePTN at h ⊢
-  have hne : (render env f).isEmpty = false := by
-    rw [render_eq]
-    cases f.tags.flatMap renderTag <;> rfl
-  rw [hne] at h
-  simp only [Bool.false_eq_true, if_false] at h
-  rw [stripBOM_render] at h
-  simp only [List.isEmpty_cons, Bool.false_eq_true, if_false]
-  exact h
+end PTN
